@@ -165,12 +165,8 @@ def dup_root_models(payload):
 def in_known_class(family, payload, kind, opts, formatters):
     if opts.get("keep_model_order"):
         return True  # C11-keep-model-order (the reordering loop may not terminate; C01_keep_order_loop_refuted)
-    if kind == "typing.TypedDict" and opts.get("use_unique_items_as_set"):
-        return True  # C01-unique-items-typeddict: AttributeError ('dict' object has no attribute 'unique_items')
     if opts.get("reuse_model") and not kind.startswith("pydantic") and dup_root_models(payload):
         return True  # C01-reuse-model-duplicate-root: the second of two identical named scalars/arrays becomes a class without members, the template reads fields[0]
-    if str(jsonable(opts).get("target_python_version")) == "3.13":
-        return True  # C01-target-313-black: CodeFormatter builds a black mode for the target even when black is not among the formatters; the installed black has no PY313
     return False
 
 
@@ -242,7 +238,7 @@ def correspond(ctx):
         if base:
             root["definitions"]["B"] = {"type": "object", "properties": {"b": {"type": "string"}}}
             root["allOf"] = [{"$ref": "#/definitions/B"}]
-        tv = rng.choice(["3.9", "3.10", "3.11", "3.12"])
+        tv = rng.choice(["3.9", "3.10", "3.11", "3.12", "3.13"])
         opts = {"target_python_version": tv}
         if usd:
             opts.update(use_schema_description=True, use_field_description=True)
